@@ -124,6 +124,10 @@ class Box(object):
     def __init__(self, items):
         self.items = dict(items)
         self.label = "box"
+        self._hidden = ("hidden", len(self.items))      # a "private" attribute is an attribute like any other
+
+    def _peek(self, k=None):
+        return ("peek", k, sorted(self.items, key=repr))
 
     def __repr__(self):
         return "Box(%r, %r)" % (sorted(self.items.items(), key=repr), self.label)
@@ -170,6 +174,11 @@ class Box(object):
         raise Boom("angry property")
 
 
+import collections
+
+Point = collections.namedtuple("Point", ["x", "y"])      # its public API starts with ONE underscore (_asdict, _replace ...)
+
+
 # ------------------------------------------------------------------------------- the operand / value pool
 POOL = [
     ("int", lambda: 0), ("int", lambda: 1), ("int", lambda: -1), ("int", lambda: 2), ("int", lambda: 7),
@@ -197,6 +206,10 @@ POOL = [
     ("attr", lambda: "twice"), ("attr", lambda: "put"), ("attr", lambda: "fail"), ("attr", lambda: "bit_length"),
     ("attr", lambda: "imag"), ("attr", lambda: "items"), ("attr", lambda: "pop"), ("attr", lambda: "copy"),
     ("attr", lambda: "_private"), ("attr", lambda: "split"), ("attr", lambda: "conjugate"),
+    # (appended: indices above are referred to by number)
+    ("Point", lambda: Point(3, "y")), ("Point", lambda: Point(0, None)),
+    ("attr", lambda: "_asdict"), ("attr", lambda: "_fields"), ("attr", lambda: "_replace"), ("attr", lambda: "_hidden"),
+    ("attr", lambda: "_peek"), ("attr", lambda: "x"),
 ]
 ATTR_IDX = [i for i, (t, _) in enumerate(POOL) if t == "attr"]
 VALUE_IDX = [i for i, (t, _) in enumerate(POOL) if t not in ("attr", "slice", "Ref")]
